@@ -24,6 +24,7 @@ func main() {
 		fmt.Fprintln(os.Stderr, "usage: cmpx run [-cases f] [-out f]")
 		os.Exit(3)
 	}
+	checkAnchors()
 	resource.VerifHook = thePump.hook
 	lines := hx.ReadCases[json.RawMessage](hx.Arg("-cases", "cases.ndjson"))
 	out := hx.NewOut(hx.Arg("-out", "obs.ndjson"))
